@@ -11,6 +11,8 @@ import Driver.C01
 import Driver.C10
 import Driver.C14
 import Driver.C15
+import Driver.C18
+import Driver.C19
 
 def main (args : List String) : IO UInt32 := do
   let stdin ← IO.getStdin
@@ -29,4 +31,6 @@ def main (args : List String) : IO UInt32 := do
   | ["c10"] => Driver.lineLoop stdin stdout () Driver.C10.step; return 0
   | ["c14"] => Driver.lineLoop stdin stdout () Driver.C14.step; return 0
   | ["c15", page] => Driver.lineLoop stdin stdout (page.toNat?.getD 4096) Driver.C15.step; return 0
+  | ["c18"] => Driver.lineLoop stdin stdout () Driver.C18.step; return 0
+  | ["c19"] => Driver.lineLoop stdin stdout (⟨[]⟩ : Zix.Lock.Table) Driver.C19.step; return 0
   | _ => IO.eprintln "usage: zixdriver <component> < script"; return 2
